@@ -464,6 +464,43 @@ def search(ctx, rng, budget):
                           'the integer nearest to the spot centre %r' % (mu,), 0.0, expected=list(mu), spot=spot)
                 if not eval_snippet_clause(h):
                     hits.append(h)
+    # 7. Gaussian spots over the whole space: frames 10 .. 1100 px, width 0.6 px .. a quarter of the frame,
+    #    positions anywhere the spot (+-3 sigma) is inside the frame, other axis 12 / 40 / 300 px, amplitudes over 5
+    #    decades, with and without background: a deterministic grid (frame x width x position) with random jitter,
+    #    repeated in the thorough tier
+    frames = [10, 14, 20, 33, 50, 80, 128, 200, 333, 512, 801, 1100]
+    for rep in range(1 if budget <= 1000 else 6):
+        for n in frames:
+            for fr in [0.6 / n, 1.0 / n, 1.7 / n, 2.6 / n, 4.0 / n, 0.02, 0.05, 0.1, 0.17, 0.25]:
+                sg = fr * n * float(rng.uniform(1.0, 1.15))
+                if sg < 0.6 or sg > n / 4:
+                    continue
+                for pos in (0.15, 0.3, 0.5, 0.62, 0.8, 0.9):
+                    mu = pos * (n - 1) + float(rng.uniform(-0.5, 0.5))
+                    if mu - 3 * sg < 0 or mu + 3 * sg > n - 1:
+                        continue
+                    m = [12, 40, 300][rng.integers(3)]
+                    mu1, sg1 = float(rng.uniform(0.3, 0.7)) * (m - 1), float(rng.uniform(1.5, m / 8))
+                    amp = float(10 ** rng.uniform(-2, 3))
+                    bg = 0.0 if rng.random() < 0.5 else float(rng.uniform(0, 0.3)) * amp
+                    ax = int(rng.integers(2))
+                    spot = dict(shape=[n, m] if ax == 0 else [m, n], mu=[mu, mu1] if ax == 0 else [mu1, mu],
+                                sigma=[sg, sg1] if ax == 0 else [sg1, sg], amp=amp, bg=bg)
+                    i = np.arange(spot['shape'][0])[:, None]
+                    j = np.arange(spot['shape'][1])[None, :]
+                    G = amp * np.exp(-(i - spot['mu'][0]) ** 2 / 2 / spot['sigma'][0] ** 2) * \
+                        np.exp(-(j - spot['mu'][1]) ** 2 / 2 / spot['sigma'][1] ** 2) + bg
+                    n_eval += 1
+                    distinct.add(('gauss-grid', n, round(fr, 4), pos, ax))
+                    try:
+                        o = find_origin(G, method='gaussian', axes=ax)
+                        good = abs(float(o[ax]) - mu) <= TOL['gaussian'] and float(o[1 - ax]) == spot['shape'][1 - ax] // 2
+                    except Exception:       # noqa
+                        good = False
+                    if not good:
+                        hits.append(mkhit('gaussian', 'gaussian', ax, [[0.0]], 'Gaussian spot of width %.3g px at %.3f on a %d px axis '
+                                          '(other axis %d px): the gaussian method does not report its centre' % (sg, mu, n, m),
+                                          TOL['gaussian'], expected=spot['mu'], spot=spot))
     return hits, n_eval, len(distinct)
 
 
@@ -485,7 +522,7 @@ def run(ctx):
                         'mirrored about a centre of the half-pixel grid within 2 px of the middle -> com (1e-9*size) and '
                         'convolution (exact); (2) content with empty margins rolled by whole pixels, (3) multiplied by a '
                         'positive factor (convolution: powers of two, or small integers on integer content, so that exact ties stay tied in binary64), (4) image_center, (5) coordinates of axes not requested, for image_center / com / '
-                        'convolution; (6) noiseless Gaussian spots for the gaussian method (1e-6 px), frames 12..80 px and a few of 400..1100 px; all four methods: multiplication by 2**k, |k| <= 400, must give a bit-identical origin. distinct = (clause '
+                        'convolution; (6) noiseless Gaussian spots for the gaussian method (1e-6 px), frames 12..80 px and a few of 400..1100 px, plus (7) a grid of ~410 spots: axis 10..1100 px x width 0.6 px..frame/4 x 6 positions, other axis 12/40/300 px, amplitude 1e-2..1e3, background; all four methods: multiplication by 2**k, |k| <= 400, must give a bit-identical origin. distinct = (clause '
                         'family, method, axes, parities, centre parities or shift signs); correspondence cases counted in '
                         'evaluations only',
                    samples=[dict(kind=c['kind'], shape=list(np.asarray(c['IM']).shape), method=c['meth'],
